@@ -1335,7 +1335,7 @@ class TTNS(TTNBase):
         The new TTNS.
         """
         new = self.metacopy()
-        if np.allclose(self.coeff, other.coeff):
+        if np.allclose(self.coeff, other.coeff, rtol=1e-14, atol=0):
             coeff1 = coeff2 = 1
         else:
             # different prefactors are folded into the root tensors (``Mps.add`` folds them too)
